@@ -273,7 +273,7 @@ Intent(cx, c) ==
 Reqs(cx, calls) == UNION {Intent(cx, c) : c \in calls}
 
 \* ------------------------------------------------------------------ 5. the judge
-TargetKind(cx, m) == IF Pfx(cx.core, m) THEN "core" ELSE IF m = cx.tree.out THEN "root" ELSE IF Pfx(cx.tree.out, m) THEN "internal" ELSE "external"
+TargetKind(cx, m) == IF Pfx(cx.core, m) THEN "core:" \o cx.tree.kind ELSE IF m = cx.tree.out THEN "root" ELSE IF Pfx(cx.tree.out, m) THEN "internal" ELSE "external"
 Locus(cx, render, via, target, form, got, delta, name) ==
   [api |-> cx.api, render |-> render, via |-> via, cur |-> IF cx.curpkg THEN "package" ELSE "module", target |-> target, form |-> form, got |-> got, delta |-> delta, name |-> name]
 Form(p) == IF p.kind = "import" THEN "plain" ELSE IF p.level = 0 THEN "absolute" ELSE "relative"
@@ -307,8 +307,10 @@ Judge(cx, reqs0, stmts, render) ==
       B == {[clause |-> "no_spurious", locus |-> Locus(cx, render, "", "", Form(p), Got(cx, p), deltaAny(p), p.n)]
             : p \in {x \in orphan : x.t # cx.cur /\ x.t \notin ExtMods /\ ~\E r \in unsat : x \in cand(r)}}
       \* within_top: no relative import climbs above the top-level package
-      viaOf(p) == LET R == {r \in reqs0 : r.n = p.n} IN IF R = {} THEN "" ELSE (CHOOSE r \in R : TRUE).why
-      W == {[clause |-> "within_top", locus |-> Locus(cx, render, viaOf(p), "", "relative", "beyond_top", "", "")] : p \in {x \in P : ~x.ok}}
+      askers(p) == {r \in reqs0 : r.n = p.n}
+      viaOf(p) == IF askers(p) = {} THEN "" ELSE (CHOOSE r \in askers(p) : TRUE).why
+      tgtOf(p) == IF askers(p) = {} THEN "" ELSE TargetKind(cx, (CHOOSE r \in askers(p) : TRUE).t)
+      W == {[clause |-> "within_top", locus |-> Locus(cx, render, viaOf(p), tgtOf(p), "relative", "beyond_top", "", "")] : p \in {x \in P : ~x.ok}}
       \* no_self
       D == {[clause |-> "no_self", locus |-> Locus(cx, render, "", "", Form(p), "self", "", "")] : p \in {x \in P : x.ok /\ x.t = cx.cur /\ x.kind = "from" /\ x.cond = ""}}
       \* once
